@@ -1,6 +1,7 @@
 package props
 
 import (
+	"context"
 	"fmt"
 	"io"
 	"math/rand"
@@ -296,6 +297,69 @@ func checkC02(e *core.Env) {
 		e.Eval(fmt.Sprintf("cancel-after-response|%s|ok=%v", c.Name, out.OK), true)
 		if ran && herr != nil && out.Seen && out.OK {
 			e.Violate(c.Name+"/stream/success-despite-error/context-ended-before-status", fmt.Sprintf("the handler sent its response and then failed with %v; the caller's context ended while the status was outstanding and the client reported success", herr), witness(res.run))
+		}
+	})
+
+	// the caller's context ends while the handler of a response stream is busy; the handler then fails. The
+	// receives report the cancellation or the handler's status, never the clean end of a stream whose handler failed
+	// (the outcome is a race between the context and the final frames, so each script runs several times)
+	e.Cases("cancel-then-handler-fails", e.N(30, 300), func(i int, r *rand.Rand) {
+		// (in-process: over HTTP/1.1 a handler that is not reading its request learns of the caller's
+		// cancellation only when the connection goes away, which C04 places and judges)
+		c := cs.list[0]
+		if !c.Inproc {
+			return
+		}
+		kind := pick(r, ServerStream, Bidi)
+		for rep := 0; rep < 6; rep++ {
+			// the handler notices that the caller went away and gives up with a status of its own; the client asks
+			// for the outcome only after that (first receive after the handler has returned), several times
+			sc := &Script{Kind: kind, Ret: Ret{How: "status", Code: uint32(codes.Aborted), Msg: "handler gave up"}}
+			sc.Sender = []Op{{Op: "send", Msg: &tpb.Message{Payload: []byte("req")}}}
+			if c.HTTP || kind == ServerStream {
+				sc.Sender = append(sc.Sender, Op{Op: "close"})
+			}
+			sc.Handler = []Op{{Op: "recv"}, {Op: "signal", Gate: "handler-waiting"}, {Op: "waitctx"}}
+			sc.Receiver = []Op{{Op: "gate", Gate: "handler-returned"}, {Op: "recv"}, {Op: "recv"}, {Op: "recv"}}
+			run := c.Svc.NewRun(sc, c.Name)
+			parent, cancel := context.WithCancel(context.Background())
+			done := make(chan bool, 1)
+			go func() {
+				ok, _ := run.Exec(c.CC, parent, watchdog)
+				done <- ok
+			}()
+			reached := false
+			select {
+			case <-run.gate("handler-waiting"):
+				reached = true
+			case <-time.After(watchdog):
+			}
+			cancel()
+			if reached {
+				select {
+				case <-run.handlerDone:
+				case <-time.After(watchdog):
+					reached = false
+				}
+			}
+			time.Sleep(time.Duration(r.Intn(3)) * time.Millisecond)
+			run.Release("handler-returned")
+			ok := <-done
+			run.Cancel()
+			c.Svc.Forget(run)
+			if !ok || !reached {
+				run.ReleaseAll()
+				e.Inconclusive("C02 cancel-then-handler-fails: placement not reached on %s", c.Name)
+				return
+			}
+			herr, ran := run.HandlerReturn()
+			e.Eval(fmt.Sprintf("cancel-then-handler-fails|%s|%s", c.Name, kind), true)
+			for _, ev := range run.Rets("cr", "recv") {
+				if ran && herr != nil && ev.Pan == "" && (ev.Err == io.EOF || ev.Err == nil) {
+					e.Violate(c.Name+"/stream/clean-end-despite-error/context-ended-then-handler-failed", fmt.Sprintf("the caller's context ended while the %s handler was busy; the handler then failed with %v; a receive issued after that returned %v", kind, herr, ev.Err), witness(run))
+					return
+				}
+			}
 		}
 	})
 
